@@ -3,6 +3,7 @@ package props
 import (
 	"bytes"
 	"fmt"
+	"sync"
 	"sync/atomic"
 
 	"verif/core"
@@ -52,8 +53,8 @@ func c03Path(p C03Case) string {
 		return path
 	case "chunks":
 		return fmt.Sprint(p.Layout)
-	case "container":
-		return fmt.Sprint(p.Cont)
+	case "container", "hetero":
+		return p.Kind + fmt.Sprint(p.Cont)
 	}
 	return p.File + fmt.Sprint(p.Enc, p.DictCap)
 }
@@ -217,6 +218,8 @@ func c03Run(r *core.Run, p C03Case) {
 		c03Chunks(r, p)
 	case "container":
 		c03Container(r, p)
+	case "hetero":
+		c03Hetero(r, p)
 	case "extreme":
 		for _, e := range c03Extremes() {
 			if e.name == p.File {
@@ -275,9 +278,20 @@ func c03Chunks(r *core.Run, p C03Case) {
 	low := []byte{1, 1, 2, 1, 2}
 	pc := func(b []byte) []byte { return append(append([]byte(nil), low...), b...) }
 	pieces := [][]byte{pc(c03Text[:p.Layout[0]]), pc(c03Text[40 : 40+p.Layout[1]]), pc(c03Text[10 : 10+p.Layout[1]+7])}
-	kinds := p.Layout[2:]
+	kinds := p.Layout[2:5]
 	g := ref.NewLZMA2Gen()
 	propsMenu := []ref.Props{{LC: 3, LP: 0, PB: 2}, {LC: 1, LP: 1, PB: 0}, {LC: 2, LP: 0, PB: 4}}
+	if len(p.Layout) > 5 {
+		// Layout[5]: only one of the three parameters changes between the chunks
+		switch p.Layout[5] {
+		case 1:
+			propsMenu = []ref.Props{{LC: 3, LP: 0, PB: 2}, {LC: 3, LP: 0, PB: 0}, {LC: 3, LP: 0, PB: 4}}
+		case 2:
+			propsMenu = []ref.Props{{LC: 1, LP: 0, PB: 2}, {LC: 1, LP: 2, PB: 2}, {LC: 1, LP: 1, PB: 2}}
+		case 3:
+			propsMenu = []ref.Props{{LC: 3, LP: 0, PB: 2}, {LC: 0, LP: 0, PB: 2}, {LC: 4, LP: 0, PB: 2}}
+		}
+	}
 	a := ref.NewChunkAutomaton()
 	for i, k := range kinds {
 		if k == 0 {
@@ -350,10 +364,47 @@ func c03Container(r *core.Run, p C03Case) {
 	c03Judge(r, p, data, plain, "container", fmt.Sprintf("check=%d sizefields=%d extrapad=%d blocks=%d DictCap=%d", check, p.Cont[1], p.Cont[2], nb, p.DictCap))
 }
 
+// heterogeneous blocks: one stream whose blocks declare different dictionary sizes and properties
+// and use matches close to their own dictionary size; anything the reader keeps from one block to
+// the next (dictionary buffer, decoder state, properties) has to fit every order of them.
+var c03HeteroOnce sync.Once
+var c03HeteroBlocks []ref.XZBlockSpec
+
+func c03HeteroMenu() []ref.XZBlockSpec {
+	c03HeteroOnce.Do(func() {
+		far := append(append([]byte(nil), randBytes(61, 5000)...), randBytes(61, 300)...)
+		mid := append(append([]byte(nil), textBytes(62, 6000)...), textBytes(62, 200)...)
+		rg := ref.NewLZMA2Gen()
+		rg.Add(ref.ChunkSpec{Kind: ref.CRawReset, Raw: randBytes(63, 4500)})
+		rg.Add(ref.ChunkSpec{Kind: ref.CRaw, Raw: randBytes(64, 700)})
+		rg.Add(ref.ChunkSpec{Kind: ref.CEnd})
+		c03HeteroBlocks = []ref.XZBlockSpec{
+			{LZMA2: ref.EncodeLZMA2Simple(c03Text[:300], ref.Props{LC: 3, LP: 0, PB: 2}, 120), Plain: c03Text[:300], DictCode: 0},
+			{LZMA2: ref.EncodeLZMA2Simple(far, ref.Props{LC: 0, LP: 2, PB: 1}, 2000), Plain: far, DictCode: 8},
+			{LZMA2: ref.EncodeLZMA2Simple(mid, ref.Props{LC: 1, LP: 1, PB: 1}, 1<<20), Plain: mid, DictCode: 2},
+			{LZMA2: rg.Out, Plain: rg.Plain, DictCode: 1},
+			{LZMA2: []byte{0}, Plain: nil, DictCode: 5},
+		}
+	})
+	return c03HeteroBlocks
+}
+
+func c03Hetero(r *core.Run, p C03Case) {
+	menu := c03HeteroMenu()
+	var blocks []ref.XZBlockSpec
+	var plain []byte
+	for _, i := range p.Cont {
+		blocks = append(blocks, menu[i])
+		plain = append(plain, menu[i].Plain...)
+	}
+	data := ref.EncodeXZStream(ref.CheckCRC32, blocks)
+	c03Judge(r, p, data, plain, "heterogeneous-blocks", fmt.Sprintf("blocks %v of the menu {4 KiB text, 64 KiB far match lc0lp2pb1, 8 KiB far match lc1lp1pb1, raw chunks, empty}, ReaderConfig.DictCap=%d", p.Cont, p.DictCap))
+}
+
 func runC03(r *core.Run) {
 	corpus := bindRef(r)
 	th := thorough(r)
-	r.Rule = "streams from the specification-driven generator: (a) ALL legal operation sequences of depth d over {lit x3, match(len x dist incl. the window edge), rep0 x2, shortrep, rep1-3} from the empty window and after fill prefixes 127/4095/4096/4097 (extended distances covering every distance-slot class); (b) a fixed op list x all 75 property sets; (c) every split into <=3 chunks x every legal chunk kind per position with different properties; (d) 4 checks x size fields x header padding x {0,1,2,3 blocks, empty block}, every legal block header size 12..1024, 127..300 blocks; (f) chunk size fields at their limits (65536 / 65535 compressed bytes, 2 MiB / 2 MiB-1 uncompressed, raw chunks of 65536 and 1 bytes, a single-literal chunk); (e) the frozen liblzma corpus and fresh liblzma encodings x ReaderConfig.DictCap. states = LZMA coder states entered; transitions = (state, op kind), distance-slot/length classes, chunk-automaton steps; non-trivial = distinct (case family, outcome, empty?)"
+	r.Rule = "streams from the specification-driven generator: (a) ALL legal operation sequences of depth d over {lit x3, match(len x dist incl. the window edge), rep0 x2, shortrep, rep1-3} from the empty window and after fill prefixes 127/4095/4096/4097 (extended distances covering every distance-slot class); (b) a fixed op list x all 75 property sets; (c) every split into <=3 chunks x every legal chunk kind per position with different properties; (d) 4 checks x size fields x header padding x {0,1,2,3 blocks, empty block}, every legal block header size 12..1024, 127..300 blocks; (d2) every list of 1..3 blocks over a menu of 5 blocks with different dictionary sizes, properties, far matches, raw chunks, empty; (f) chunk size fields at their limits (65536 / 65535 compressed bytes, 2 MiB / 2 MiB-1 uncompressed, raw chunks of 65536 and 1 bytes, a single-literal chunk); (e) the frozen liblzma corpus and fresh liblzma encodings x ReaderConfig.DictCap. states = LZMA coder states entered; transitions = (state, op kind), distance-slot/length classes, chunk-automaton steps; non-trivial = distinct (case family, outcome, empty?)"
 	var cases []C03Case
 	def := [3]int{3, 0, 2}
 	// (a) operation sequences, enumerated inside the workers (not materialised)
@@ -453,6 +504,11 @@ func runC03(r *core.Run) {
 							continue
 						}
 						cases = append(cases, C03Case{Kind: "chunks", Layout: []int{s1, s2, k1, k2, k3}, DictCap: 4096})
+						if k2 != 0 && s1 == 30 && s2 == 25 {
+							for v := 1; v <= 3; v++ {
+								cases = append(cases, C03Case{Kind: "chunks", Layout: []int{s1, s2, k1, k2, k3, v}, DictCap: 4096})
+							}
+						}
 					}
 				}
 			}
@@ -482,6 +538,18 @@ func runC03(r *core.Run) {
 	for _, nb := range []int{127, 128, 129, 300} {
 		for _, sf := range []int{0, 3} {
 			cases = append(cases, C03Case{Kind: "container", Cont: []int{4, sf, 0, nb}, DictCap: 4096})
+		}
+	}
+	// (d2) heterogeneous blocks: every list of 1..3 blocks over a menu of 5
+	for a := 0; a < 5; a++ {
+		for _, dc := range []int{4096, 1 << 16} {
+			cases = append(cases, C03Case{Kind: "hetero", Cont: []int{a}, DictCap: dc})
+			for b := 0; b < 5; b++ {
+				cases = append(cases, C03Case{Kind: "hetero", Cont: []int{a, b}, DictCap: dc})
+				for c := 0; c < 5; c++ {
+					cases = append(cases, C03Case{Kind: "hetero", Cont: []int{a, b, c}, DictCap: dc})
+				}
+			}
 		}
 	}
 	// (f) chunk size fields at their limits
